@@ -78,7 +78,8 @@ func configLocations() ([]string, error) {
 	if configFile, ok := os.LookupEnv(configFileEnv); ok && configFile != "" {
 		// kong skips files which can't be opened, that's right for default locations only:
 		// settings (a whitelist!) of a file named by user must not vanish silently
-		f, err := os.Open(configFile)
+		// (kong expands "~/" when it loads the file, so the check has to look at the same place)
+		f, err := os.Open(kong.ExpandPath(configFile))
 		if err != nil {
 			return nil, err
 		}
